@@ -204,7 +204,10 @@ func C06CLI(r *simkit.Run) {
 			// The name a user gives a new file is free text: it may hold blanks and may read like a
 			// part of a sum-file line.
 			label := fmt.Sprintf("n%03d", next)
-			switch t.Weighted("file-label", 6, 1, 1, 1) {
+			switch t.Weighted("file-label", 6, 1, 1, 1, 1) {
+			case 4:
+				label += "_50%"
+				r.Probe("file-label-with-a-percent-sign")
 			case 1:
 				label = "h1:" + label
 				r.Probe("file-label-reads-like-a-sum-entry")
